@@ -121,10 +121,12 @@ func (s *rrSegFetcher) doCheck() {
 	defer s.doCheck()
 
 	// queue outgoing interest for the next segment
+	// (copy fetchName: appending to a slice with spare capacity would make all the queued
+	// Interests of this window share - and overwrite - the same segment component)
+	name := make(enc.Name, 0, len(state.fetchName)+1)
+	name = append(append(name, state.fetchName...), enc.NewSegmentComponent(seg))
 	args := ExpressRArgs{
-		Name: append(state.fetchName,
-			enc.NewSegmentComponent(seg),
-		),
+		Name: name,
 		Config: &ndn.InterestConfig{
 			MustBeFresh: false,
 		},
